@@ -43,6 +43,45 @@ POOL = [0xE9, 0xB2, 0xFF49, 0x2764, 0xDF, 0x130, 0x149, 0x3A3, 0x4E2D, 0x663, 0x
         0xD800, 0xFFFD, 0x7F, 0x1C, 0xAD]
 ASCII_PUNCT = [ord(c) for c in " \t\n\r!\"#$%&'()*+,-./:;<=>?@[\\]^`{|}~"]
 
+# Reserved words of the LANGUAGES, independent of the tree under test (never read from properties.yaml / nunavut):
+# ISO/IEC 9899:2011 6.4.1 and ISO/IEC 14882:2020 [lex.key] + alternative tokens [lex.digraph]; Python: the running interpreter.
+C11_KEYWORDS = """auto break case char const continue default do double else enum extern float for goto if inline int long register
+restrict return short signed sizeof static struct switch typedef union unsigned void volatile while _Alignas _Alignof _Atomic _Bool
+_Complex _Generic _Imaginary _Noreturn _Static_assert _Thread_local""".split()
+CXX20_KEYWORDS = """alignas alignof asm auto bool break case catch char char8_t char16_t char32_t class concept const consteval constexpr
+constinit const_cast continue co_await co_return co_yield decltype default delete do double dynamic_cast else enum explicit export
+extern false float for friend goto if inline int long mutable namespace new noexcept nullptr operator private protected public
+register reinterpret_cast requires return short signed sizeof static static_assert static_cast struct switch template this
+thread_local throw true try typedef typeid typename union unsigned using virtual void volatile wchar_t while
+and and_eq bitand bitor compl not not_eq or or_eq xor xor_eq""".split()
+
+
+def language_oracle(lang):
+    if lang == "py":
+        import builtins
+        return sorted(set(keyword.kwlist) | set(dir(builtins)))
+    return sorted(set(C11_KEYWORDS if lang == "c" else CXX20_KEYWORDS))
+
+
+_CC = {}
+
+
+def compiler_accepts(lang, tok):
+    """P-level oracle for Python: the real compiler takes the token as attribute, class-level name and local name"""
+    if lang != "py":
+        return True
+    r = _CC.get(tok)
+    if r is None:
+        try:
+            compile("class X:\n  def __init__(self):\n    self.%s = 0\n    %s = self.%s\n  %s = 1\n" % (tok, tok, tok, tok), "<c09>", "exec")
+            r = True
+        except Exception:
+            r = False
+        if len(_CC) > 400000:
+            _CC.clear()
+        _CC[tok] = r
+    return r
+
 
 # ---------------------------------------------------------------------------------------------------------------------
 # regular expression -> syntax tree for the spec's matcher
@@ -220,6 +259,8 @@ class Cfg:
         self.idset = set(self.ids)
         self.kw = sorted(keyword.kwlist) if self.lang == "py" else []
         self.kwset = set(self.kw)
+        self.oracle = language_oracle(self.lang)
+        self.oracleset = set(self.oracle)
 
         def table(key):
             src = l.get_config_value_as_dict(key, {})
@@ -246,7 +287,7 @@ class Cfg:
     def doc(self):
         def t(tbl):
             return {k: [rx_ast(p) for p in v] for k, v in tbl.items()}
-        return {"lang": self.lang, "cls": self.cls, "ids": [cps(x) for x in self.ids], "kw": [cps(x) for x in self.kw],
+        return {"lang": self.lang, "cls": self.cls, "ids": [cps(x) for x in self.ids], "kw": [cps(x) for x in self.kw], "oracle": [cps(x) for x in self.oracle],
                 "pats": t(self.pats), "encs": t(self.encs), "pre": cps(self.pre), "suf": cps(self.suf), "encpre": cps(self.encpre),
                 "hasws": self.ws is not None, "ws": cps(self.ws or ""), "collapse": self.collapse}
 
@@ -264,7 +305,7 @@ class Cfg:
     def reserved(self, s, kind, loose=False):
         forms = [s] if self.lang != "py" else [s, nfkc(s)]
         pats = self.inforce(self.cpats, kind)
-        if any(f in self.idset or any(p.match(f) for p in pats) for f in forms):
+        if any(f in self.idset or f in self.oracleset or any(p.match(f) for p in pats) for f in forms):
             return True
         return loose and any(p.search(s) for p in pats)
 
@@ -442,7 +483,7 @@ class Observer:
         self.nmodel += 1
         rec = {"key": (cid, kind, s), "tag": "model", "exc": exc, "obs": [("call1", e, o), ("call2", e2, o2)], "steps": steps, "nopipe": False,
                "pred": pred}
-        if case["pok"] and (e, "" if e else o) == pred and (e2, "" if e2 else o2) == pred:
+        if case["pok"] and (e, "" if e else o) == pred and (e2, "" if e2 else o2) == pred and (e or compiler_accepts(c.lang, o)):
             if self.nmodel % self.model_stride == 0:
                 self.model_rep.append(rec)
             else:
@@ -531,9 +572,9 @@ class Observer:
         c = self.cfgs[cid]
         e1, o1 = r["obs"][0][1], r["obs"][0][2]
         rec = {"id": self.next_id, "cfg": cid, "kind": kind, "inp": cps(s), "innf": cps(nfkc(s)), "nopipe": bool(r["nopipe"]),
-               "obs": [{"err": e, "out": cps(o), "nf": cps(nfkc(o))} for _, e, o in r["obs"]],
+               "obs": [{"err": e, "out": cps(o), "nf": cps(nfkc(o)), "cc": e or compiler_accepts(c.lang, o)} for _, e, o in r["obs"]],
                "py": {"iv": c.lexvalid(s), "ir": c.reserved(s, kind), "il": c.reserved(s, kind, True), "ie": c.enctouch(s, kind),
-                      "ov": (not e1) and c.lexvalid(o1), "orr": (not e1) and c.reserved(o1, kind)}}
+                      "ov": (not e1) and c.lexvalid(o1) and compiler_accepts(c.lang, o1), "orr": (not e1) and c.reserved(o1, kind)}}
         if r["steps"] is not None:
             rec["steps"] = r["steps"]
         self.next_id += 1
@@ -622,8 +663,8 @@ def judge(ctx, cfgs, recs, info, reverify, batch=None):
             raise MachineryFailure("unparsable verdict %r" % clause)
         for cl in [x for x in m.group(1).split("+") if x]:
             sig = "C09|%s|%s|%s|%s" % (cl, c.lang, c.cls, m.group(2) if cl != "strop.determinism" else input_class(s))
-            what = {"strop.valid": "filter_id returned a token that is not a syntactically valid identifier",
-                    "strop.reserved": "filter_id returned a token that is reserved under the configuration in force",
+            what = {"strop.valid": "filter_id returned a token that is not a valid identifier (lexical rule, keyword, or rejected by the language's compiler)",
+                    "strop.reserved": "filter_id returned a token that is reserved (language oracle or configuration in force)",
                     "strop.identity": "an already valid, unreserved identifier was not returned unchanged",
                     "strop.determinism": "answers to the same question differ"}.get(cl, cl)
             ctx.violation(sig, "%s: %s(%r, %r) -> %s" % (what, cid, s, kind, json.dumps(obs, ensure_ascii=True)[:600]), case)
@@ -738,8 +779,18 @@ def code_to_spec_questions(ctx, cfgs, obs):
     rng = ctx.rng
     for cid, c in cfgs.items():
         full = cid.endswith(".default") or not ctx.quick
-        words = list(c.ids) if full else rng.sample(c.ids, min(len(c.ids), 12))
+        # the complete language oracle (C11 / C++20 keywords, Python keywords + builtins incl. the dunder ones) is part of every tier
+        universe = sorted(set(c.ids) | c.oracleset)
+        words = list(universe) if full else rng.sample(universe, min(len(universe), 12))
         words += [w for w in ("if", "_if", "if_", "_a", "a_", "too", "Ann", "zX", "tt", "to", "f1", "int8_t", "a_t") if w not in words]
+        if not full:
+            for wi, w in enumerate(c.oracle):
+                for k in ("any", KINDS[1 + wi % 5]):
+                    obs.add(cid, k, w, tag="reserved-word")
+        if c.lang == "py":   # soft keywords are identifiers for the compiler: asked, judged like any other input
+            for w in getattr(keyword, "softkwlist", []):
+                for k in KINDS:
+                    obs.add(cid, k, w, tag="soft-keyword")
         for wi, w in enumerate(words):
             variants = {w.upper(), w.capitalize(), w.lower(), "_" + w, w + "_", "__" + w, w + "__", "_" + w.capitalize(), c.pre + w + c.suf,
                         c.pre + c.pre + w + c.suf + c.suf, " " + w, w + " ", w + "1", "1" + w, w + "_t", w + "é",
@@ -948,11 +999,17 @@ def run(ctx):
         "reserved/valid are the configuration's notions: reserved_identifiers (+ the language's own list) and reserved_token_patterns_by_type "
         "read through the public getters of the live Language object; `any` = every category; patterns are applied with re.match",
         "Unicode tables (\\d \\s \\w, XID_Start/Continue via str.isidentifier, NFKC, keyword.kwlist) of the running interpreter",
+        "language oracle independent of the tree: ISO C11 / C++20 keyword lists hard-coded in vf/props/c09.py; keyword.kwlist + dir(builtins) and "
+        "compile() of the interpreter running the check; a returned token must be outside the oracle AND outside the configuration's reserved set",
         "identity is demanded only for inputs that are lexically valid, unreserved under re.match and re.search, and untouched by every "
         "encoding rule of the category (configuration-level validity, DESIGN 3.1(6))",
     ]
     ctx.ambiguous("C++ `__x` / `x__` and Python non-ASCII identifiers are lexically valid and unreserved but an encoding rule rewrites them: "
                   "identity is not demanded there (configuration-level reading of `already valid`)")
+    soft = [w for w in getattr(keyword, "softkwlist", []) if w not in cfgs["py.default"].oracleset and ask(cfgs["py.default"].obj, w, "any")[:2] == (False, w)]
+    if soft:
+        ctx.ambiguous("Python soft keywords %s are returned unchanged: they are identifiers for the compiler (compile() oracle accepts them) and not "
+                      "reserved by the configuration; only hard keywords and builtins are demanded to be stropped" % soft)
     ctx.not_exercised("overrides of token_encoding_rules_by_identifier_type / whitespace_encoding_char (they define what the configuration "
                       "considers valid; a rule set that lets invalid characters through is a configuration error, not a filter error)")
     ctx.not_exercised("objects with a .name attribute as filter_id instance (default_filter_id_for_target); only str inputs")
